@@ -2334,7 +2334,16 @@ where
                 message: e.to_string(),
             })?;
 
-    let context = build_k1_forward_context_from_cell(tds, cell_key, vertex_key)?;
+    let context = match build_k1_forward_context_from_cell(tds, cell_key, vertex_key) {
+        Ok(context) => context,
+        Err(e) => {
+            // The vertex was already inserted: a refused flip must not leave it behind.
+            if let Some(inserted) = tds.get_vertex_by_key(vertex_key).copied() {
+                let _ = tds.remove_vertex(&inserted);
+            }
+            return Err(e);
+        }
+    };
     let result = apply_bistellar_flip::<K, U, V, D, 1>(tds, kernel, &context);
 
     if result.is_err()
